@@ -202,9 +202,12 @@ Fixpoint no_mutable_alias (o : obj) : bool :=
 
 (* every reported (path, value) below the root is retrievable: [got] is what
    get_path returned for it *)
-Definition retrievable (entry : path * oref * option oref) : bool :=
+(* The only entry exempted is the root itself, which research reports under
+   (None,).  (A dict may use None as a key: an item reported under (None,) that is
+   not the root object must be retrievable like any other.) *)
+Definition retrievable (root : obj) (entry : path * oref * option oref) : bool :=
   let '(p, r, got) := entry in
-  path_eqb p [KNone] || option_eqb oref_eqb got (Some r).
+  (path_eqb p [KNone] && oref_eqb r (oref_of root)) || option_eqb oref_eqb got (Some r).
 
 (* ---- guards of the two recorded findings (hypotheses of the _partial theorems) ---- *)
 (* C08-tuple-cycle: a tuple/frozenset is reached again from inside itself *)
